@@ -65,7 +65,7 @@ Check (C13_cancelled_report_is_dropped : forall ops r res,
   let st' := fst (step st (OCtxEnd (s_id r) res)) in
   subs st' = subs st /\ reporting st' = None /\ cancelled st' = false /\ ~ In (s_id r) (all_ids st')).
 Check (C13_slot_before_fix :
-  ids_in_table (run_gen true false init slot_witness) = [1] /\ ids_in_table (run init slot_witness) = [2]).
+  ids_in_table (run_gen true false true init slot_witness) = [1] /\ ids_in_table (run init slot_witness) = [2]).
 Check (C13_event_delivered_iff_retained : forall cap l seen upto n,
   N.of_nat (length l) + 3 < two64 ->
   let q := push_all cap evq_init l in
@@ -75,3 +75,11 @@ Check (C13_event_delivered_unless_evicted : forall cap l seen n,
   let q := push_all cap evq_init l in
   seen < n -> n < q_next q -> evicted_undelivered q seen n = false ->
   In n (report_events q seen (q_next q - 1))).
+Check (C13_reported_at_is_last_sent : forall ops s,
+  Forall op_time_ok ops -> In s (subs (run init ops)) -> unprimed s = false -> s_rep_at s = s_since s).
+Check (C13_liveness_from_last_sent : forall ops s tb evw,
+  Forall op_time_ok ops -> In s (subs (run init ops)) ->
+  unprimed s = false -> s_min s <= s_max s ->
+  s_retry_at s <= s_since s + s_max s * 1000 -> s_since s + s_max s * 1000 <= IMAX ->
+  next_report_at s tb evw <= s_since s + s_max s * 1000 /\
+  is_reportable s (next_report_at s tb evw) tb evw = true).
